@@ -189,6 +189,11 @@ struct crs {
 
         free_data();
 
+        // A matrix that borrowed its arrays (own_data == false) lets go of
+        // them here; whatever is allocated below belongs to this object.
+        ptr = 0; col = 0; val = 0;
+        own_data = true;
+
         nrows = other.nrows;
         ncols = other.ncols;
         nnz   = other.nnz;
